@@ -15,18 +15,22 @@ warnings.filterwarnings("ignore")
 from simkit import a_sim
 
 n = int(sys.argv[1]) if len(sys.argv) > 1 else 3000
-feats = ["mem", "straddle", "stack", "call", "loop", "branch", "rep", "indirect", "smc", "ro"]
-rng = random.Random(12345)
-sa = a_sim.statement_assembler("x86_32")
-ok = 0
-for i in range(n):
-    feat = set(f for f in feats if rng.random() < 0.6)
-    lines = a_sim.gen_program_x86(rng, feat)
-    try:
-        a_sim.Program("x86_32", lines)
-        ok += 1
-    except a_sim.Discard as d:
-        pass
-with open(a_sim.ASM_CACHE_FILE, "w") as fd:
-    json.dump({k: v.hex() for k, v in sorted(sa.cache.items())}, fd, indent=0)
-print("programs ok", ok, "of", n, "statements cached", len(sa.cache), "new", len(sa.new))
+archs = sys.argv[2].split(",") if len(sys.argv) > 2 else ["x86_32", "arml"]
+feats = ["mem", "straddle", "stack", "call", "loop", "branch", "rep", "indirect", "smc", "ro", "multi"]
+for arch in archs:
+    rng = random.Random(12345)
+    sa = a_sim.statement_assembler(arch)
+    ok = 0
+    for i in range(n):
+        feat = set(f for f in feats if rng.random() < 0.6)
+        if arch != "x86_32":
+            feat -= {"rep", "indirect", "smc"}
+        lines = a_sim.gen_program(arch, rng, feat)
+        try:
+            a_sim.Program(arch, lines)
+            ok += 1
+        except a_sim.Discard as d:
+            pass
+    with open(a_sim.asm_cache_file(arch), "w") as fd:
+        json.dump({k: v.hex() for k, v in sorted(sa.cache.items())}, fd, indent=0)
+    print(arch, "programs ok", ok, "of", n, "statements cached", len(sa.cache), "new", len(sa.new))
